@@ -1036,7 +1036,6 @@ func retResults(ret *ssa.Return) []ssa.Value {
 	return out
 }
 
-
 // edgeFacts: facts that hold when control flows along the edge pred→succ: the facts dominating pred plus, when pred ends
 // in an If with distinct successors, that If's condition with the polarity of the edge.
 func edgeFacts(pred, succ *ssa.BasicBlock) []condFact {
@@ -1050,7 +1049,6 @@ func edgeFacts(pred, succ *ssa.BasicBlock) []condFact {
 	}
 	return out
 }
-
 
 // resolveOrigin follows a value back to where it was made: through type changes, loads of single-store cells, closure
 // free variables (to the binding at the MakeClosure), parameters of functions with exactly one static call site, and
